@@ -97,7 +97,7 @@ def validate_chunk(ctx, idx, cases, tag):
     cases = list(cases)
     lines_ok = 0
     rounds = 0
-    acc = 0
+    acc = []
     d = ctx.subdir("chunk_%s_%d" % (tag, idx))
     while cases:
         rounds += 1
@@ -110,7 +110,7 @@ def validate_chunk(ctx, idx, cases, tag):
                                 name="tv_%s_%d_%d" % (tag, idx, rounds))
         if tv["accepted"]:
             lines_ok += len(rows)
-            return acc + len(cases), lines_ok, rej
+            return acc + cases, lines_ok, rej
         ln = tv["stuck_line"]
         if not ln or ln < 1 or ln > len(rows):
             raise InfraError("trace validation gave no usable position: %s" % tv["res"].summary())
@@ -119,7 +119,7 @@ def validate_chunk(ctx, idx, cases, tag):
         reason = ("property " + tv["invariant"]) if tv["invariant"] else "step not allowed by the spec"
         rej.append((cases[ci], row, reason, tv["invariant"]))
         lines_ok += sum(len(c) for c in cases[:ci])
-        acc += ci
+        acc += cases[:ci]
         cases = cases[ci + 1:]          # earlier cases were consumed fine; continue after the bad one
     return acc, lines_ok, rej
 
@@ -175,6 +175,42 @@ def explain_prune(case_rows, row):
     ch = ["t%d %s->%s" % (t["id"], pt[t["id"]], t["status"]) for t in post["tasks"] if t["id"] in pt and pt[t["id"]] != t["status"]]
     return " [real Prune at 1000h removed %s; kept %s; task status changes: %s; taskCount %d->%d]" % (
         fmt(gone), fmt(kept), ",".join(ch) or "none", pre["taskCount"], post["taskCount"])
+
+
+READY = ("Done", "Undone", "Hold", "Error")
+
+
+def statement_prune_checks(cases):
+    """C09's statement read directly off the real Prune calls (pre/post projections), independent of whether TLC
+    could follow the case up to there (a case whose reload already deviates is dropped from trace validation
+    at that step, but the driver went on and its later Prune calls are still real observations):
+    a change with tasks may be removed only if it finished - a ready time that merely appeared across a reload
+    (it was zero in the state that was saved) is not a finish."""
+    out = []
+    for c in cases:
+        stamped = {}
+        prev = None
+        for r in c:
+            if r["panic"] or not r.get("st"):
+                break
+            if prev is not None and r["ev"] == "SaveReload":
+                before = {x["id"]: x["ready"] for x in prev["st"]["changes"]}
+                for x in r["st"]["changes"]:
+                    if before.get(x["id"]) == 0 and x["ready"] != 0:
+                        stamped[x["id"]] = r["i"]
+            if prev is not None and r["ev"] == "Prune":
+                post = {x["id"] for x in r["st"]["changes"]}
+                for x in prev["st"]["changes"]:
+                    if x["id"] in post or not x["tasks"] or x["status"] in READY:
+                        continue
+                    if x["ready"] == 0:
+                        out.append((c, r, "Prune removed change #%d that never finished (status %s, %d tasks, no ready time)" % (
+                            x["id"], x["status"], len(x["tasks"]))))
+                    elif x["id"] in stamped:
+                        out.append((c, r, "Prune removed unfinished change #%d (status %s, %d tasks): its ready time was zero when saved "
+                                    "and appeared with the reload at step %d" % (x["id"], x["status"], len(x["tasks"]), stamped[x["id"]])))
+            prev = r
+    return out
 
 
 def op_counts(cases):
@@ -263,7 +299,7 @@ def run_replay(ctx, prop):
     pf = os.path.join(d, "ops.ndjson")
     common.write_ndjson(pf, [{"case": rp.get("case", 1), "ops": rp["ops"]}])
     rows = run_driver(ctx, tb, os.path.join(d, "t.ndjson"), {"VERIF_REPLAY": pf})
-    _, lines_ok, rej = validate_chunk(ctx, 0, split_cases(rows), "replay")
+    acc_, lines_ok, rej = validate_chunk(ctx, 0, split_cases(rows), "replay")
     violations = []
     for case_rows, row, reason, inv in rej:
         what = ("%s panics: %s" % (row["ev"], row["panic"].split("\n")[0])) if row["panic"] else key_for(case_rows, row, inv or "real step differs from StateStore")
@@ -319,16 +355,19 @@ def run(ctx, prop):
     # ---- 3. validate against the trace spec, in parallel chunks
     per = ctx.pick(10, 60)     # cases per TLC run (bounds the JVM heap a trace needs); nchunks runs in parallel
     chunks = [all_cases[i:i + per] for i in range(0, len(all_cases), per)]
-    accepted = lines_ok = 0
+    accepted_cases = []
+    lines_ok = 0
     rejections = []
     with concurrent.futures.ThreadPoolExecutor(max_workers=nchunks) as ex:
         futs = [ex.submit(validate_chunk, ctx, i, c, prop) for i, c in enumerate(chunks)]
         for f in futs:
             a, l, rej = f.result()
-            accepted += a
+            accepted_cases += a
             lines_ok += l
             rejections += rej
-    ctx.log("trace validation: %d cases accepted, %d rejected" % (accepted, len(rejections)))
+    accepted = len(accepted_cases)
+    ctx.log("trace validation: %d cases accepted, %d rejected, %d left unvalidated" % (
+        accepted, len(rejections), len(all_cases) - accepted - len(rejections)))
 
     violations, other = [], []
     for case_rows, row, reason, inv in rejections:
@@ -369,6 +408,13 @@ def run(ctx, prop):
         mine = who == prop or (pruned_before and row["ev"] not in ("Prune", "SaveReload") and not row["panic"] and not inv
                                and not row.get("stale"))
         (violations if mine else other).append(v)
+    if prop == "C09":
+        for case_rows, row, what in statement_prune_checks(all_cases):
+            ops = ops_of(case_rows, row["i"])
+            violations.append(Violation(
+                key=key_for(case_rows, row, "unfinished change removed"),
+                desc="%s%s; ops: %s" % (what, explain_prune(case_rows, row), short_ops(ops, 18)),
+                replay={"case": row["case"], "ops": ops, "real_post_state": row["st"]}))
     for r in probe_rows:
         if r["panic"]:
             msg = r["panic"].split("\n")[0]
@@ -383,7 +429,7 @@ def run(ctx, prop):
     violations = list(uniq.values())
 
     # ---- 4. vacuity guards on the real executions
-    ok_cases = [c for c in all_cases if not any(c is rc for rc, _, _, _ in rejections)]
+    ok_cases = accepted_cases
     oc = op_counts(ok_cases)
     ps = prune_stats(ok_cases)
     reloads = oc.get("SaveReload", 0)
@@ -394,7 +440,14 @@ def run(ctx, prop):
             raise InfraError("vacuity guard: real Prune calls did too little: %s" % ps)
 
     # ---- 5. the binding rejects corrupted observations
-    selfcheck = binding_selfcheck(ctx, [c for c in ok_cases if any(r["ev"] == "Prune" for r in c)][:4] or ok_cases[:4])
+    try:
+        if not ok_cases:
+            raise InfraError("binding self-check: no accepted real trace to corrupt")
+        selfcheck = binding_selfcheck(ctx, [c for c in ok_cases if any(r["ev"] == "Prune" for r in c)][:4] or ok_cases[:4])
+    except InfraError as e:
+        if not violations:      # real violations are reported first; self-check trouble alone is exit 2
+            raise
+        selfcheck = [{"skipped_or_failed": str(e)[:300]}]
 
     samples = []
     for c in ok_cases[:3]:
